@@ -490,6 +490,13 @@ def build():
         ensures match files { Some(v) => if v@.len() == 1 { r is Some && r->Some_0.id@ == v@[0].id@ } else { r is None }, None => r is None } // [C09,C02,C05] exactly one descriptor, or none is taken""")
     span = brh.impl_span(r'impl<S: VhostUserBackendReqHandler> BackendReqHandler<S>$')
     u.raw("impl BackendReqHandler {")
+    # the request server's initial state (third session): nothing offered, nothing acknowledged, no reply-ack, no failure - the
+    # closed position every "only after negotiation" gate (C07) starts from; it talks on the socket and to the handler it was given
+    u.extracted_fn(brh, "new", within=span,
+                   sig_rw=[("R3", r'Endpoint<VhostUserMsgHeader<FrontendReq>>', 'Endpoint<FrontendReq>'), ("R3", r'Arc<S>', 'HandlerStub'), ("R3", r'-> Self\b', '-> BackendReqHandler')],
+                   contract="""
+        ensures r.main_sock == main_sock, r.backend == backend, r.virtio_features == 0, r.acked_virtio_features == 0, r.acked_protocol_features == 0,
+            !r.reply_ack_enabled, r.error is None, // [C07:server-starts-closed,C04] no feature is offered or acknowledged on a new server, acknowledgements are off, no failure recorded""")
     for name, kw in HELPERS:
         kw = dict(kw)
         rw = [("R3", r'\.map_err\(Into::into\)', '')]
